@@ -12,7 +12,7 @@ for l in lines:
     key = "%s-m%s" % (m.group(1), m.group(2))
     res.setdefault(key, {})[m.group(3)] = {"quick_exit": int(m.group(4)), "violations_reported": int(m.group(5)), "first_violation": m.group(6)[:400]}
 outside = {
-    "C12-m2": "the change only affects the WTF8 format; C11/C12 harnesses instantiate Bytes and UTF8 only (stated bound)",
+    "C07-m3": "needs an attribute value of >= 64 bytes; the harness bound is 4/6 bytes (stated)",
     "C11-m1": "needs push_tendril between two distinct heap buffers; that harness exhausts CBMC's memory (37 M variables) and is not in the registered list",
 }
 for d in sorted(glob.glob(os.path.join(os.path.dirname(os.path.abspath(__file__)), '..', 'seeded', '*', 'meta.json'))):
